@@ -7,7 +7,7 @@ EVERY oracle whose `unsat` answers are right (`OracleSound`; nothing is assumed 
 that times out on every query is covered): whenever the reference EVM terminates on the input `I` describes (not by
 overflowing the 1024-item stack, which halmos does not model), the result of `run` has an end state whose path `I`
 satisfies and which reports exactly that outcome — or that end state is an error report (stuck) or the tagged
-invalid-destination halt (known finding) — or a flag is raised: bounded loop, `--depth` cut, or the model's fuel.
+invalid-destination halt (known finding) or an OutOfGas raised by halmos' own memory-limit check — or a flag is raised: bounded loop, `--depth` cut, or the model's fuel.
 
 The only discarding site of the core is `jumpi`; `discard_only_if_unsat` is its lemma, `unknown_never_discards` the
 oracle-free core of it.
@@ -97,27 +97,30 @@ theorem discard_only_if_unsat {s : Simp} (hs : SimpSound s) {o : Oracle} (ho : O
     still terminates with `h`, or it yields an end state covering `h`, or it records a bounded loop. -/
 theorem step_complete {I : Interp} {env : Env} {code : List Nat} {p : Evm.Params} {w : Evm.World} {s : Simp}
     {o : Oracle} {cfg : Cfg} {st : SState} {f : Evm.Frame} (hs : SimpSound s) (ho : OracleSound o) (hI : I.Std)
-    (hR : R I env code p st f) (hl : f.stack.length ≤ 1024) (hsat : Sat I st.path) {w' : Evm.World} {h : Evm.Halt}
-    (hh : Halts p w f (w', h)) :
+    (hR : R I env code p st f) (hl : f.stack.length ≤ 1024) (hmem : cfg.maxMem + 32 ≤ p.memLimit)
+    (hsat : Sat I st.path) {w' : Evm.World} {h : Evm.Halt} (hh : Halts p w f (w', h)) :
     (∃ st' ∈ (step s o cfg env code st).next, Sat I st'.path ∧
         ∃ f', R I env code p st' f' ∧ Halts p w f' (w', h)) ∨
     (∃ e ∈ (step s o cfg env code st).ends, EndCovers I h e) ∨
     (step s o cfg env code st).bounded ≠ [] :=
-  Lemmas.Sevm.step_complete hs ho hI hR hl hsat hh
+  Lemmas.Sevm.step_complete hs ho hI hR hl hmem hsat hh
 
 /-! ### the property -/
 
-/-- **C02.complete.** -/
+/-- **C02.complete.** (`hmem` as in `C01.sound`; an end state "reports `h`" when its kind together with its data
+    evaluated under `I` is `h`) -/
 theorem complete {s : Simp} (hs : SimpSound s) {o : Oracle} (ho : OracleSound o) (cfg : Cfg) (env : Env)
-    (code : List Nat) (fuel : Nat) (p : Evm.Params) (w : Evm.World) (I : Interp) (hI : I.Std) (f0 : Evm.Frame)
+    (code : List Nat) (fuel : Nat) (p : Evm.Params) (w : Evm.World) (hmem : cfg.maxMem + 32 ≤ p.memLimit)
+    (I : Interp) (hI : I.Std) (f0 : Evm.Frame)
     (hR0 : R I env code p initState f0) (n : Nat) (w' : Evm.World) (h : Evm.Halt)
     (hex : Evm.exec p n w f0 = some (w', h)) (hne : h ≠ .stackOverflow) :
     (∃ e ∈ (run s o cfg env code fuel).ends, Sat I e.st.path ∧
-        ((e.out = .halt h ∧ e.tag = .normal) ∨ (∃ r, e.out = .stuck r) ∨ e.tag ≠ .normal)) ∨
+        ((∃ h0, e.out = .halt h0 ∧ haltWith h0 (e.data.map (·.eval I)) = h ∧ e.tag = .normal) ∨
+         (∃ r, e.out = .stuck r) ∨ e.tag ≠ .normal)) ∨
     (run s o cfg env code fuel).boundedLoops ≠ [] ∨
     (run s o cfg env code fuel).depthCut = true ∨
     (run s o cfg env code fuel).outOfFuel = true :=
-  explore_complete (cfg := cfg) hs ho hI hne fuel 0 [initState] {}
+  explore_complete (cfg := cfg) hs ho hmem hI hne fuel 0 [initState] {}
     ⟨initState, List.mem_singleton.2 rfl, Sat.nil I, f0, hR0, n, hex⟩
 
 /-! ### non-vacuity -/
@@ -126,14 +129,15 @@ theorem complete {s : Simp} (hs : SimpSound s) {o : Oracle} (ho : OracleSound o)
     reference EVM ends in `invalidOpcode`; no flag is raised in that run, so the first disjunct must hold — and the
     model's result indeed contains the INVALID end state under the path `x = 42` -/
 example : ∃ e ∈ exRes.ends, Sat exI e.st.path ∧
-    ((e.out = .halt .invalidOpcode ∧ e.tag = .normal) ∨ (∃ r, e.out = .stuck r) ∨ e.tag ≠ .normal) := by
+    ((∃ h0, e.out = .halt h0 ∧ haltWith h0 (e.data.map (·.eval exI)) = .invalidOpcode ∧ e.tag = .normal) ∨
+     (∃ r, e.out = .stuck r) ∨ e.tag ≠ .normal) := by
   have hex : ∃ w', Evm.exec exP 10 exW exF0 = some (w', .invalidOpcode) := by
     have : (Evm.exec exP 10 exW exF0).map (·.2) = some .invalidOpcode := by decide +kernel
     match h : Evm.exec exP 10 exW exF0, this with
     | some (w', _), this => exact ⟨w', by simp only [Option.map_some, Option.some.injEq] at this; rw [← this]⟩
   obtain ⟨w', hex⟩ := hex
   have hflags : exRes.boundedLoops = [] ∧ exRes.depthCut = false ∧ exRes.outOfFuel = false := by decide +kernel
-  rcases complete foldSimp_sound oracleSound_unknown {} exEnv exCode 100 exP exW exI exI_std exF0 exR 10 w'
+  rcases complete foldSimp_sound oracleSound_unknown {} exEnv exCode 100 exP exW C01.exMem exI exI_std exF0 exR 10 w'
       .invalidOpcode hex (by decide) with h | h | h | h
   · exact h
   · exact absurd hflags.1 h
